@@ -19,7 +19,9 @@ def parseDy (s : String) : Option (Int × Nat) :=
   | _ => none
 
 def parseVal (s : String) : Option Val :=
-  if s == "T" then some (.bool true)
+  if s == "inf" then some (.inf false)
+  else if s == "-inf" then some (.inf true)
+  else if s == "T" then some (.bool true)
   else if s == "F" then some (.bool false)
   else if s.startsWith "b" then
     (((s.drop 1).toString.splitOn ".").mapM String.toNat?).map .bytes
@@ -45,11 +47,14 @@ def showVal : Val → String
   | .bool b => if b then "T" else "F"
   | .bytes bs => "b" ++ ".".intercalate (bs.map toString)
   | .recd fs => "r" ++ ";".intercalate (fs.map showDy)
+  | .inf neg => if neg then "-inf" else "inf"
+  | .poison => "POISON"
 
 def showList {α} (f : α → String) (l : List α) : String :=
   if l.isEmpty then "_" else ",".intercalate (l.map f)
 
-def showVals (l : List Val) : String := showList showVal l
+def showVals (l : List Val) : String :=
+  if l.any (· == .poison) then "inexact" else showList showVal l
 def showNats (l : List Nat) : String := showList toString l
 def showBits (l : List Bool) : String := String.ofList (l.map fun b => if b then '1' else '0')
 
